@@ -273,8 +273,10 @@ def main(argv):
             p = gen.gen_any(kind, rng)
             if t % 4 == 1:
                 p.ptype = "axi"
-                if rng.random() < 0.5 and not runnable:
-                    p.ext = (rng.choice([0.0, 1.5]), rng.choice([10.0, 20.0]), rng.choice([5.0, 8.0]))
+                if not runnable:
+                    # an exterior region in every such problem; its centre alternately AT z = 0 (a legal position, not "undefined") and off it
+                    stats["exterior_regions"] = stats.get("exterior_regions", 0) + 1
+                    p.ext = (0.0 if stats["exterior_regions"] % 2 else rng.choice([1.5, -2.0]), rng.choice([10.0, 20.0]), rng.choice([5.0, 8.0]))
             if t % 9 == 8:
                 p.pointprops, p.circprops = [], []
                 for n in p.nodes:
